@@ -49,6 +49,8 @@ type CfgCore struct {
 	When                           time.Time                 // a struct that unmarshals from text
 	Peers                          []Nested                  // structs (holding a pointer) inside a slice
 	PM                             map[string]*Nested        // pointers to structs inside a map
+	PWhen                          *time.Time                // a pointer to a struct that unmarshals from text
+	TU                             TextU                     // a text-unmarshaling struct with exported reference fields
 	Nest                           Nested
 	PN                             *Nested
 	Emb
@@ -83,6 +85,25 @@ func (c *CfgCore) Verify() error {
 func (c *CfgCore) stamps() [4]uint64 { return [4]uint64{c.StampA, c.StampB, c.StampC, c.StampD} }
 
 var stampNames = [4]string{"StampA", "StampB", "StampC", "StampD"}
+
+// TextU unmarshals from text (pointer receiver), so dials treats it as a leaf,
+// yet it holds a map and a slice a holder could write to.
+type TextU struct {
+	S string
+	M map[string]int
+	L []string
+}
+
+func (t *TextU) UnmarshalText(b []byte) error {
+	t.S, t.M, t.L = string(b), map[string]int{string(b): len(b)}, []string{string(b)}
+	return nil
+}
+
+func buildTU(s string) TextU {
+	var t TextU
+	t.UnmarshalText([]byte(s))
+	return t
+}
 
 type PeerSpec struct {
 	S string `json:"s"`
@@ -135,6 +156,8 @@ type Part struct {
 	When      *string             `json:"when,omitempty"` // RFC 3339
 	Peers     []PeerSpec          `json:"peers,omitempty"`
 	PM        map[string]string   `json:"pm,omitempty"` // key -> Nested.S
+	PWhen     *string             `json:"p_when,omitempty"`
+	TU        *string             `json:"tu,omitempty"`
 	NestS     *string             `json:"nest_s,omitempty"`
 	NestN     *int                `json:"nest_n,omitempty"`
 	NestX     *int                `json:"nest_x,omitempty"`
@@ -301,6 +324,13 @@ func fillValue(e reflect.Value, p *Part, owner int) {
 	if p.PM != nil {
 		fld("PM").Set(reflect.ValueOf(buildPM(p.PM)))
 	}
+	if p.PWhen != nil {
+		t := mustTime(*p.PWhen)
+		fld("PWhen").Set(reflect.ValueOf(&t))
+	}
+	if p.TU != nil {
+		setPtr(fld("TU"), buildTU(*p.TU))
+	}
 	if p.NestS != nil || p.NestN != nil || p.NestX != nil {
 		f := fld("Nest")
 		n := reflect.New(f.Type().Elem())
@@ -422,6 +452,13 @@ func defaultsFrom(p *Part) *CfgCore {
 	}
 	if p.PM != nil {
 		c.PM = buildPM(p.PM)
+	}
+	if p.PWhen != nil {
+		t := mustTime(*p.PWhen)
+		c.PWhen = &t
+	}
+	if p.TU != nil {
+		c.TU = buildTU(*p.TU)
 	}
 	if p.NestS != nil {
 		c.Nest.S = *p.NestS
